@@ -15,7 +15,9 @@ RULE = ("Histories over {learn(snet, router, dnets), forget-router(snet, router)
         "router; after every operation every lookup equals the model, the two indexes agree (a destination credited to router R "
         "under S <=> lookup(S, d) is R's record <=> R is listed under S), no operation raises; on the wire the next-hop MAC of "
         "each emitted frame equals the model's router and unknown destinations produce Who-Is-Router-To-Network instead of a "
-        "stale hop. Non-trivial: history in which a learn displaces another router, or a deletion/renumbering follows a learn. "
+        "stale hop. The same message-driven histories run on a node with TWO attached networks (announcements and routed traffic arrive "
+        "on either port; knowledge is per (attached network, destination); traffic must leave on a network that knows a next hop, toward "
+        "that router). Non-trivial: history in which a learn displaces another router, or a deletion/renumbering follows a learn. "
         "Distinct by the operation sequence.")
 ASSUMPTIONS = [
     "renumbering onto a number already in use is excluded (two ports with one network number violate a BACnet invariant)",
@@ -279,6 +281,105 @@ def check_node(hist, learned_net):
     return fails
 
 
+
+def check_node2(hist):
+    """the same on a node with TWO attached networks (1 and 2; the application sits on network 2, bound last): steps
+       ["iam", port, router, [dnets]] | ["sadr", port, router, dnet] | ["forget_router", port, router] | ["forget_dnets", port, router|None, [dnets]];
+       knowledge is kept per (attached network, destination); afterwards traffic to each destination must leave on an attached
+       network that knows a next hop for it, toward exactly that router."""
+    L = lib()
+    L.VC.reset(0.0)
+    NS = L.NS
+    NS.NetworkServiceElement._startup_disabled = True
+    nsap = NS.NetworkServiceAccessPoint()
+    nse = NS.NetworkServiceElement()
+    L.bind(nse, nsap)
+    wires = [L.Wire(), L.Wire()]
+    app = L.App()
+    L.bind(app, nsap)
+    me = [L.LocalStation(5), L.LocalStation(6)]
+    nets = [1, 2]
+    nsap.bind(wires[0], 1, me[0])
+    nsap.bind(wires[1], 2, me[1])
+    model = {}                 # (attached net, dnet) -> router name
+
+    def inject(port, src_mac, frame, bcast):
+        pdu = L.PDU(frame, source=L.LocalStation(src_mac), destination=L.LocalBroadcast() if bcast else me[port])
+        wires[port].response(pdu)
+        L.VC.settle()
+
+    for st_ in hist:
+        k = st_[0]
+        port = st_[1]
+        try:
+            if k == "iam":
+                frame = RN.encode(dict(msg=1, vendor=None, dadr=None, sadr=None, er=False, prio=0, hop=None, data=RN.encode_msg(1, dict(nets=st_[3]))))
+                inject(port, ROUTERS[st_[2]], frame, True)
+                for d in st_[3]:
+                    model[(nets[port], d)] = st_[2]
+            elif k == "sadr":
+                frame = RN.encode(dict(msg=None, vendor=None, dadr=None, sadr=(st_[3], b"\x21"), er=False, prio=0, hop=None, data=b"\x10\x08"))
+                inject(port, ROUTERS[st_[2]], frame, False)
+                model[(nets[port], st_[3])] = st_[2]
+            elif k == "forget_router":
+                nsap.delete_router_references(nets[port], L.LocalStation(ROUTERS[st_[2]]))
+                for key in [key for key, r in model.items() if key[0] == nets[port] and r == st_[2]]:
+                    del model[key]
+            elif k == "forget_dnets":
+                nsap.delete_router_references(nets[port], L.LocalStation(ROUTERS[st_[2]]) if st_[2] else None, list(st_[3]))
+                for d in st_[3]:
+                    if (nets[port], d) in model and (st_[2] is None or model[(nets[port], d)] == st_[2]):
+                        del model[(nets[port], d)]
+        except Exception as err:
+            return [("node2:%s:raised:%s" % (k, type(err).__name__), "history %r: step %r raised %r" % (hist, st_, err))]
+        sw = [r for r in L.VC.boot.swallowed.take() if r[0]]
+        if sw:
+            return [("node2:%s:swallowed:%s:%s" % (k, sw[0][0], sw[0][1]), "history %r: step %r made the stack raise %r" % (hist, st_, sw[0]))]
+        for w in wires:
+            del w.sent[:]       # (a router relays announcements; not the subject here)
+    # lookups agree with the model, pair by pair
+    fails = []
+    for an in nets:
+        for d in (10, 20, 30):
+            ri = nsap.router_info_cache.get_router_info(an, d)
+            want = model.get((an, d))
+            got = None
+            if ri is not None:
+                got = next((n for n, m in ROUTERS.items() if ri.address == L.LocalStation(m)), str(ri.address))
+            if got != want:
+                return [("node2:lookup:%s" % ("missing" if got is None else "stale" if want is None else "wrong-router"),
+                         "history %r: (attached network %d, destination %d) should lead to %r, the cache says %r" % (hist, an, d, want, got))]
+    from bacpypes.apdu import WhoIsRequest
+    for d in (10, 20, 30):
+        for w in wires:
+            del w.sent[:]
+        try:
+            req = WhoIsRequest()
+            req.pduDestination = L.RemoteStation(d, 33)
+            app.request(req)
+            L.VC.settle()
+        except Exception as err:
+            return [("node2:send:raised:%s" % type(err).__name__, "history %r: sending to network %d raised %r" % (hist, d, err))]
+        hops = []
+        for pi, w in enumerate(wires):
+            for dest, frame in w.sent:
+                h = RN.decode(frame)
+                if h["msg"] is None:
+                    hops.append((nets[pi], dest))
+        ok = [(an, L.LocalStation(ROUTERS[r])) for (an, dd), r in model.items() if dd == d]
+        if not ok:
+            if hops:
+                fails.append(("node2:stale-hop", "history %r: nothing is known about network %d but a frame left on network %d for %s" % (hist, d, hops[0][0], hops[0][1])))
+        elif len(hops) != 1:
+            fails.append(("node2:%s" % ("no-frame" if not hops else "duplicate-frames"), "history %r: network %d is known via %r but %d frames went out" % (hist, d, ok, len(hops))))
+        elif hops[0] not in ok:
+            fails.append(("node2:wrong-next-hop", "history %r: the frame for network %d left on network %d for %s; the knowledge says %r" % (hist, d, hops[0][0], hops[0][1], ok)))
+        if fails:
+            break
+    nsap.pending_nets.clear()
+    return fails
+
+
 def node_nontrivial(hist):
     seen = {}
     nt = False
@@ -305,6 +406,10 @@ def judge(case):
     if k == "node":
         return Verdict(check_node(case["hist"], case.get("learned", False)), node_nontrivial(case["hist"]),
                        ("node:learned" if case.get("learned") else "node:configured",))
+    if k == "node2":
+        h = case["hist"]
+        nt = len(set((st_[1], tuple(st_[3]) if isinstance(st_[3], list) else st_[3]) for st_ in h if st_[0] in ("iam", "sadr"))) > 1 or any(st_[0].startswith("forget") for st_ in h)
+        return Verdict(check_node2(h), nt, ("node:two-ports",))
     raise ValueError(k)
 
 
@@ -369,6 +474,21 @@ def node_alphabet():
     return a
 
 
+def node2_alphabet():
+    a = []
+    for port in (0, 1):
+        for r in "AB":
+            for ds in ([10], [20], [10, 20]):
+                a.append(["iam", port, r, ds])
+            a.append(["forget_router", port, r])
+            for d in (10, 20):
+                a.append(["sadr", port, r, d])
+        for r in ("A", None):
+            for ds in ([10], [10, 20]):
+                a.append(["forget_dnets", port, r, ds])
+    return a
+
+
 def plan(tier, seed):
     specs = []
     fa = full_alphabet()
@@ -384,6 +504,11 @@ def plan(tier, seed):
         specs.append(dict(name="node-all-%d" % s, kind="nodeall", first=list(range(s, len(na), 8)), maxlen=2 if tier == "quick" else 3))
     for i in range(3):
         specs.append(dict(name="node-random-%d" % i, kind="noderandom", n=300 if tier == "quick" else 4000))
+    n2 = node2_alphabet()
+    for s in range(6):
+        specs.append(dict(name="node2-all-%d" % s, kind="node2all", first=list(range(s, len(n2), 6)), maxlen=2 if tier == "quick" else 3))
+    for i in range(2):
+        specs.append(dict(name="node2-random-%d" % i, kind="node2random", n=400 if tier == "quick" else 5000))
     return specs
 
 
@@ -412,6 +537,16 @@ def run(spec, ctx):
                     hist = [alpha[f]] + [alpha[i] for i in rest]
                     ctx.check(dict(k="node", hist=hist, learned=False))
         ctx.mark_exhaustive("all message-driven histories up to length %d" % spec["maxlen"])
+    elif kind == "node2all":
+        alpha = node2_alphabet()
+        for ln in range(1, spec["maxlen"] + 1):
+            for f in spec["first"]:
+                for rest in itertools.product(range(len(alpha)), repeat=ln - 1):
+                    ctx.check(dict(k="node2", hist=[alpha[f]] + [alpha[i] for i in rest]))
+        ctx.mark_exhaustive("all message-driven histories up to length %d on a two-port node" % spec["maxlen"])
+    elif kind == "node2random":
+        from hypothesis import strategies as st
+        ctx.for_all(st.lists(st.sampled_from(node2_alphabet()), min_size=1, max_size=12).map(lambda h: dict(k="node2", hist=h)), spec["n"])
     elif kind == "noderandom":
         from hypothesis import strategies as st
         alpha = node_alphabet()
